@@ -160,7 +160,8 @@ class Hand(twisted.internet.protocol.Protocol):
             log.warning('Worker and pipeline revisions are not the same.')
             self.transport.loseConnection()
         else:
-            _workers.append(self)
+            if self not in _workers:
+                _workers.append(self)
             self.__incarnation = msg.incarnation
             log.debug(
                 'Registered a worker for its %d incarnation.', msg.incarnation
